@@ -64,21 +64,22 @@ theorem wellFormedB_sound (v2 : Bool) (t : Tab) (h : wellFormedB v2 t = true) : 
 
 /-! ## `consistentB` -/
 
-theorem resNameF_sound (F : Facts) (v2 : Bool) : ∀ (fuel c : Nat) (n : Name), resNameF F v2 fuel c = some n → ResName F v2 c n := by
+theorem resNameF_sound (F : Facts) (v2 : Bool) : ∀ (fuel c : Nat) (b : Bool) (n : Name), resNameF F v2 fuel c = some (b, n) → ResName F v2 c b n := by
   intro fuel
   induction fuel with
-  | zero => intro c n h; simp [resNameF] at h
+  | zero => intro c b n h; simp [resNameF] at h
   | succ fuel ih =>
-    intro c n h
+    intro c b n h
     simp only [resNameF] at h
     cases hn : F.node c with
-    | alias t => rw [hn] at h; exact .alias hn (ih t n h)
-    | basic nm => rw [hn] at h; simp only [Option.some.injEq] at h; subst h; exact .basic hn
+    | alias t => rw [hn] at h; exact .alias hn (ih t b n h)
+    | basic nm => rw [hn] at h; simp only [Option.some.injEq, Prod.mk.injEq] at h; obtain ⟨rfl, rfl⟩ := h; exact .basic hn
+    | tparam k => rw [hn] at h; simp only [Option.some.injEq, Prod.mk.injEq] at h; obtain ⟨rfl, rfl⟩ := h; exact .tparam hn
     | _ =>
       rw [hn] at h
-      simp only [Option.some.injEq] at h
-      subst h
-      exact .byName (by intro t ht; rw [hn] at ht; cases ht) (by intro nm ht; rw [hn] at ht; cases ht)
+      simp only [Option.some.injEq, Prod.mk.injEq] at h
+      obtain ⟨rfl, rfl⟩ := h
+      exact .byName (by intro t ht; rw [hn] at ht; cases ht) (by intro nm ht; rw [hn] at ht; cases ht) (by intro k ht; rw [hn] at ht; cases ht)
 
 theorem kidEqB_sound (F : Facts) (v2 : Bool) (fuel a b : Nat) (h : kidEqB F v2 fuel a b = true) : KidEq F v2 a b := by
   unfold kidEqB at h
@@ -90,7 +91,7 @@ theorem kidEqB_sound (F : Facts) (v2 : Bool) (fuel a b : Nat) (h : kidEqB F v2 f
     | some m =>
       simp only [ha, hb, decide_eq_true_eq] at h
       subst h
-      exact ⟨n, resNameF_sound F v2 fuel a n ha, resNameF_sound F v2 fuel b n hb⟩
+      exact ⟨n.1, n.2, resNameF_sound F v2 fuel a n.1 n.2 ha, resNameF_sound F v2 fuel b n.1 n.2 hb⟩
 
 theorem all2B_sound {α β : Type} {r : α → β → Bool} {R : α → β → Prop} (hr : ∀ a b, r a b = true → R a b) :
     ∀ (l₁ : List α) (l₂ : List β), all2B r l₁ l₂ = true → All2 R l₁ l₂ := by
